@@ -1,4 +1,5 @@
 import Txtpp.Lemmas.SinkFacts
+import Txtpp.Lemmas.NeededRel
 import Txtpp.Lemmas.Hermetic
 /-!
 # Property C09 — `--needed` equals a normal build and rewrites nothing that is unchanged
@@ -44,5 +45,38 @@ theorem needed_run_eq_build_run {C : Type} (w : Coord.World) (R : Coord.Sem C) (
     (hq : x.st.pool = []) (hno : ¬ Coord.Leftover x.st) (hq' : x'.st.pool = []) (hno' : ¬ Coord.Leftover x'.st) :
     (∀ f, f ∈ x.st.dm.fin ↔ f ∈ x'.st.dm.fin) ∧ ∀ f ∈ x.st.dm.fin, x.outp f = x'.outp f :=
   Coord.hermetic w R hR inputs out0 out0' x x' h h' hq hno hq' hno'
+
+/-- what a pass computes (verdict, output text, effect on the world) is the same function in normal
+build and only-if-needed mode; only the way the output reaches the disk differs -/
+theorem pass_computation_mode_independent {W : Type} (Wd : World W) (le : List Char) (first trailing : Bool) (w : W)
+    (lines : List (List Char)) (readOk : Bool) :
+    ppPass Wd .inMemory le first trailing w lines readOk = ppPass Wd .build le first trailing w lines readOk :=
+  ppPass_needed Wd le first trailing w lines readOk
+
+/-- **Only-if-needed equals build, one source.** From the same tree (output path not a directory,
+the source does not read its own output while it is being rebuilt), a normal build pass and an
+only-if-needed pass give the same verdict, and after an `ok` pass every path holds the same bytes. -/
+theorem needed_pass_eq_build_pass (cfg : Cfg) (hb : cfg.mode = .build) (a : FS) (src : Path) (first : Bool)
+    (content : ByteArray) (o : Path) (bs : List (Refine.Block Directive))
+    (hfile : a.file? src = some content) (hout : outputPath src = some o) (hnd : a.isDir o = false)
+    (hbs : srcBlocks .build (decodeLines (byteLines content.toList)).1 = some bs)
+    (hsafe : Safe cfg a src.dropLast bs [o]) (hprobes : ProbesOK cfg a src.dropLast [o] bs) :
+    (runPass cfg a src first).1 = (runPass cfg.toNeeded a src first).1 ∧
+    ((runPass cfg a src first).1 = .ok → ∀ q, (runPass cfg a src first).2.file? q = (runPass cfg.toNeeded a src first).2.file? q) :=
+  Txt.needed_pass_eq_build_pass cfg hb a src first content o bs hfile hout hnd hbs hsafe hprobes
+
+/-- … and from two trees that agree outside a stale set `S` (histories of edits, tampering and
+deletions in between): same verdict; after `ok` they agree wherever nothing stale is left -/
+theorem needed_pass_vs_build_pass_from_related_trees (cfg : Cfg) (hb : cfg.mode = .build) (a b : FS) (S : List Path) (src : Path)
+    (first : Bool) (hag : Agree S a b) (hsrc : src ∉ S) (hnd : ∀ o, outputPath src = some o → a.isDir o = false)
+    (hsafe : ∀ content o bs, a.file? src = some content → outputPath src = some o →
+      srcBlocks .build (decodeLines (byteLines content.toList)).1 = some bs →
+      Safe cfg a src.dropLast bs (o :: S) ∧ ProbesOK cfg a src.dropLast (o :: S) bs) :
+    (runPass cfg a src first).1 = (runPass cfg.toNeeded b src first).1 ∧
+    ((runPass cfg a src first).1 = .ok → ∀ content o bs, a.file? src = some content → outputPath src = some o →
+      srcBlocks .build (decodeLines (byteLines content.toList)).1 = some bs →
+      Agree ((staleAfter cfg a src.dropLast bs (o :: S)).filter (· != o))
+        (runPass cfg a src first).2 (runPass cfg.toNeeded b src first).2) :=
+  needed_pass_rel cfg hb a b S src first hag hsrc hnd hsafe
 
 end C09
